@@ -10,22 +10,32 @@
 use std::collections::{BTreeMap, BTreeSet};
 
 use bytesize::ByteSize;
-use rustic_core::repofile::{FileType, IndexFile, Metadata, Node, NodeType, SnapshotFile};
-use rustic_core::{BackupOptions, ConfigOptions, Id, KeyOptions, LsOptions, PruneOptions, RepairIndexOptions, RepairSnapshotsOptions, RusticResult, last_modified_node};
+use rustic_core::repofile::{Chunker, FileType, IndexFile, KeyId, Metadata, Node, NodeType, SnapshotFile};
+use rustic_core::{
+    BackupOptions, ConfigOptions, Excludes, Id, KeyOptions, LsOptions, PruneOptions, RepairIndexOptions, RepairSnapshotsOptions, RewriteOptions,
+    RewriteTreesOptions, RusticResult, last_modified_node,
+};
 
 use super::c02::hist::{check_errors_retry, source};
 use super::c02::{decode_index_files, parse_opts};
-use crate::repo::{self, LogOp, MemBackend, MemSource, RepoHandle, Store};
+use crate::repo::{self, LogOp, MemBackend, MemSource, RepoHandle, SrcEntry, Store};
 use crate::util::{Rng, Stats, guarded};
 
-/// (`config` is not generated: `MemBackend` keys config files by id, so a changed config shows up as a second
-/// repository — a limitation of the shared backend, see notes/C03.md)
-pub const CMDS: [&str; 8] = ["backup", "forget", "prune", "prune-instant", "merge", "repairsnap", "repairidx-readall", "key"];
+/// `copy`: the repository under test is the DESTINATION (faults are injected there), the source is `Scn::aux`;
+/// `rewrite`: exclude-glob rewrite of all snapshots with `forget` (new trees, new snapshots, old snapshots removed);
+/// `config`: the scenario is built on `OneConfigBackend` (one config file whatever its id, like real backends), the command
+/// runs through `RepoHandle::open_oc`; `key` adds a key, `keyrm` removes a key added in the pre-state.
+pub const CMDS: [&str; 12] =
+    ["backup", "forget", "prune", "prune-instant", "merge", "repairsnap", "repairidx-readall", "key", "copy", "rewrite", "config", "keyrm"];
 
 pub struct Scn {
     pub h: RepoHandle,
     /// snapshots of the pre-state with their sources (`None` = damaged on purpose: content not comparable)
     pub live: Vec<(SnapshotFile, Option<MemSource>)>,
+    /// `copy`: the source repository and the snapshots to copy
+    pub aux: Option<(RepoHandle, Vec<SnapshotFile>)>,
+    /// `keyrm`: the key to remove
+    pub extra_key: Option<KeyId>,
 }
 
 pub fn cfg(seed: u64) -> ConfigOptions {
@@ -33,6 +43,26 @@ pub fn cfg(seed: u64) -> ConfigOptions {
         .set_datapack_size(ByteSize(*Rng::new(seed).pick(&[3000u64, 6000])))
         .set_treepack_size(ByteSize(1500))
         .set_compression(if seed % 2 == 0 { 0 } else { 3 })
+}
+
+/// number of backups in the pre-state (an evolving source): 3 or 4 (2 to 4 where the command does not need three)
+fn n_pre(cmd: &str, seed: u64) -> u64 {
+    match cmd {
+        "prune" | "prune-instant" => 3 + (seed / 7) % 2,
+        _ => 2 + (seed / 7) % 3,
+    }
+}
+
+/// prune options by seed: plain / repack-all / fast-repack, max-unused 0 % or unlimited
+fn prune_opts_seed(instant: bool, seed: u64) -> PruneOptions {
+    let i = if instant { '1' } else { '0' };
+    let (all, fast) = match (seed / 3) % 3 {
+        0 => ('0', '0'),
+        1 => ('1', '0'),
+        _ => ('0', '1'),
+    };
+    let unused = if (seed / 11) % 3 == 0 { "u" } else { "p0" };
+    parse_opts(&format!("0,0,0,00{all}0{i}0{fast},u,{unused}")).unwrap().opts
 }
 
 fn prune_opts(instant: bool) -> PruneOptions {
@@ -47,9 +77,11 @@ pub fn do_backup(h: &RepoHandle, src: &MemSource) -> RusticResult<SnapshotFile> 
 /// the state before the command
 pub fn prestate(cmd: &str, seed: u64) -> Result<Scn, String> {
     let e = |x: Box<rustic_core::RusticError>| format!("oracle-fail:prestate-{}", crate::util::errkind(&x));
-    let (h, _) = RepoHandle::init(MemBackend::new(), None, &cfg(seed)).map_err(e)?;
+    let (h, _) = if cmd == "config" { RepoHandle::init_oc(MemBackend::new(), None, &cfg(seed)) } else { RepoHandle::init(MemBackend::new(), None, &cfg(seed)) }.map_err(e)?;
     let mut live = vec![];
-    for k in 0..3 {
+    let mut aux = None;
+    let mut extra_key = None;
+    for k in 0..n_pre(cmd, seed) {
         let src = source(seed, k, None);
         let snap = do_backup(&h, &src).map_err(e)?;
         live.push((snap, Some(src)));
@@ -82,22 +114,50 @@ pub fn prestate(cmd: &str, seed: u64) -> Result<Scn, String> {
                 l.1 = None;
             }
         }
+        "copy" => {
+            // the repository built so far becomes the source; the destination starts with one snapshot of a related source
+            let (hd, _) = RepoHandle::init(MemBackend::new(), None, &cfg(seed ^ 1)).map_err(e)?;
+            let src = source(seed, 1, None);
+            let snap = do_backup(&hd, &src).map_err(e)?;
+            let snaps: Vec<SnapshotFile> = live.iter().map(|l| l.0.clone()).collect();
+            aux = Some((h, snaps));
+            hd.be.clear_log();
+            return Ok(Scn { h: hd, live: vec![(snap, Some(src))], aux, extra_key });
+        }
+        "keyrm" => {
+            extra_key = Some(h.open().map_err(e)?.add_key("another-password", &KeyOptions::default()).map_err(e)?);
+        }
         _ => {}
     }
     h.be.clear_log();
-    Ok(Scn { h, live })
+    Ok(Scn { h, live, aux, extra_key })
 }
 
-pub fn run_cmd(cmd: &str, seed: u64, h: &RepoHandle, live: &[(SnapshotFile, Option<MemSource>)]) -> RusticResult<()> {
+pub fn run_cmd(cmd: &str, seed: u64, h: &RepoHandle, scn: &Scn) -> RusticResult<()> {
+    let live = &scn.live;
     match cmd {
-        "backup" => do_backup(h, &source(seed, 3, None)).map(|_| ()),
+        "backup" => do_backup(h, &source(seed, 3 + seed % 2, None)).map(|_| ()),
+        "copy" => {
+            let (hs, snaps) = scn.aux.as_ref().expect("copy scenario has a source");
+            let src = hs.open()?.to_indexed()?;
+            let dst = h.open()?.to_indexed_ids()?;
+            src.copy(&dst, snaps.iter())
+        }
+        "rewrite" => {
+            let r = h.open()?.to_indexed()?;
+            let snaps: Vec<SnapshotFile> = live.iter().map(|l| l.0.clone()).collect();
+            let glob = *Rng::new(seed ^ 0x7e).pick(&["!**/f1*", "!**/d1", "!**/sub", "!**/f2", "**/d0"]);
+            let topts = RewriteTreesOptions::default().excludes(Excludes::default().globs(vec![glob.to_string()]));
+            r.rewrite_snapshots_and_trees(snaps, &RewriteOptions::default().forget(true), &topts).map(|_| ())
+        }
+        "keyrm" => h.open()?.delete_key(&scn.extra_key.expect("keyrm scenario has a key")),
         "forget" => {
             let ids: Vec<_> = live.iter().take(2).map(|l| l.0.id).collect();
             h.open()?.delete_snapshots(&ids)
         }
         "prune" | "prune-instant" => {
             let r = h.open()?;
-            let o = prune_opts(cmd == "prune-instant");
+            let o = prune_opts_seed(cmd == "prune-instant", seed);
             let plan = r.prune_plan(&o)?;
             r.prune(&o, plan)
         }
@@ -119,8 +179,8 @@ pub fn run_cmd(cmd: &str, seed: u64, h: &RepoHandle, live: &[(SnapshotFile, Opti
             h.open()?.repair_index(&o, false)
         }
         "config" => {
-            let mut r = h.open()?;
-            r.apply_config(&ConfigOptions::default().set_compression(7)).map(|_| ())
+            let mut r = h.open_oc()?;
+            r.apply_config(&ConfigOptions::default().set_compression(7).set_treepack_size(ByteSize(2000 + seed % 100))).map(|_| ())
         }
         "key" => h.open()?.add_key("another-password", &KeyOptions::default()).map(|_| ()),
         _ => unreachable!(),
@@ -187,6 +247,9 @@ pub fn closures(h: &RepoHandle, everything: &Store) -> Result<BTreeMap<Id, Optio
 struct Namer {
     files: BTreeMap<Id, usize>,
     blobs: BTreeMap<Id, usize>,
+    /// `Some`: name blobs by occurrence class (see `abstract_tokens_classes`)
+    class_of: Option<BTreeMap<(bool, Id), Vec<(u8, Id, usize)>>>,
+    classes: BTreeMap<(bool, Vec<(u8, Id, usize)>), usize>,
 }
 impl Namer {
     fn f(&mut self, id: &Id) -> usize {
@@ -196,6 +259,19 @@ impl Namer {
     fn keys(&mut self, ks: &[(bool, Id)]) -> String {
         if ks.is_empty() {
             return "-".into();
+        }
+        if let Some(occ) = &self.class_of {
+            let mut seen = BTreeSet::new();
+            let mut v = vec![];
+            for k in ks {
+                let places = occ.get(k).cloned().unwrap_or_default();
+                let n = self.classes.len() + 1;
+                let c = *self.classes.entry((k.0, places)).or_insert(n);
+                if seen.insert((k.0, c)) {
+                    v.push(format!("{}{}", if k.0 { "t" } else { "d" }, c));
+                }
+            }
+            return v.join(".");
         }
         let v: Vec<String> = ks
             .iter()
@@ -217,6 +293,18 @@ pub fn abstract_trace(h: &RepoHandle, before: &Store, after: &Store, log: &[LogO
 
 /// as `abstract_trace`, tokens not joined (one token per *applied* log entry)
 pub fn abstract_tokens(h: &RepoHandle, before: &Store, after: &Store, log: &[LogOp]) -> Result<(Vec<String>, Vec<String>), String> {
+    abstract_tokens_with(h, before, after, log, false)
+}
+
+/// as `abstract_tokens`, but blob keys are replaced by their *occurrence class*: two blobs of one type that occur in exactly
+/// the same pack files, index entries and snapshot closures are the same abstract key.  `Repo.consistent` only asks, per
+/// key, in which of these places it occurs, so the verdict of the monitor at every prefix is the same — and a trace over
+/// 50 000 blobs stays a few hundred tokens long.
+pub fn abstract_tokens_classes(h: &RepoHandle, before: &Store, after: &Store, log: &[LogOp]) -> Result<(Vec<String>, Vec<String>), String> {
+    abstract_tokens_with(h, before, after, log, true)
+}
+
+fn abstract_tokens_with(h: &RepoHandle, before: &Store, after: &Store, log: &[LogOp], classes: bool) -> Result<(Vec<String>, Vec<String>), String> {
     let everything = union(before, after);
     let mut packs: BTreeMap<Id, Vec<(bool, Id)>> = BTreeMap::new();
     let index_all: BTreeMap<Id, IndexFile> = all_index(h, &everything)?.into_iter().collect();
@@ -229,7 +317,29 @@ pub fn abstract_tokens(h: &RepoHandle, before: &Store, after: &Store, log: &[Log
         }
     }
     let clos = closures(h, &everything)?;
-    let mut nm = Namer { files: BTreeMap::new(), blobs: BTreeMap::new() };
+    let mut nm = Namer { files: BTreeMap::new(), blobs: BTreeMap::new(), class_of: None, classes: BTreeMap::new() };
+    if classes {
+        // occurrence places: pack files (as listed), index entries (file, section, position), snapshot closures
+        let mut occ: BTreeMap<(bool, Id), Vec<(u8, Id, usize)>> = BTreeMap::new();
+        for (pid, ks) in &packs {
+            for k in ks {
+                occ.entry(*k).or_default().push((0, *pid, 0));
+            }
+        }
+        for (fid, f) in &index_all {
+            for (n, p) in f.packs.iter().chain(f.packs_to_delete.iter()).enumerate() {
+                for b in &p.blobs {
+                    occ.entry((b.tpe == rustic_core::repofile::BlobType::Tree, *b.id)).or_default().push((1, *fid, n));
+                }
+            }
+        }
+        for (sid, c) in &clos {
+            for k in c.iter().flatten() {
+                occ.entry(*k).or_default().push((2, *sid, 0));
+            }
+        }
+        nm.class_of = Some(occ);
+    }
     let idx_tok = |nm: &mut Namer, id: &Id| -> Result<String, String> {
         let f = index_all.get(id).ok_or("oracle-fail:transient-index-file")?;
         let pk = |nm: &mut Namer, ps: &[rustic_core::repofile::IndexPack]| -> String {
@@ -339,7 +449,7 @@ fn exec_mon(cmd: &str, seed: u64, thorough: bool) -> String {
     let before = scn.h.be.store();
     let damaged: BTreeSet<Id> = scn.live.iter().filter(|l| l.1.is_none()).map(|l| *l.0.id).collect();
     // full run
-    if let Err(e) = run_cmd(cmd, seed, &scn.h, &scn.live) {
+    if let Err(e) = run_cmd(cmd, seed, &scn.h, &scn) {
         return format!("oracle-fail:{cmd}:full-run-{}", crate::util::errkind(&e));
     }
     let n = scn.h.be.log().len();
@@ -353,7 +463,7 @@ fn exec_mon(cmd: &str, seed: u64, thorough: bool) -> String {
             }
             let h = RepoHandle { be: MemBackend::from_store(before.clone()), hot: None, key: scn.h.key.clone() };
             if crash { h.be.set_crash_at(Some(k)) } else { h.be.set_fail_only(Some(k)) }
-            let res = run_cmd(cmd, seed, &h, &scn.live);
+            let res = run_cmd(cmd, seed, &h, &scn);
             let hit = h.be.log().iter().any(|o| !o.applied);
             h.be.set_crash_at(None);
             h.be.set_fail_only(None);
@@ -368,9 +478,239 @@ fn exec_mon(cmd: &str, seed: u64, thorough: bool) -> String {
     "ok".into()
 }
 
+
+// ---------------------------------------------------------------------------------------------------------
+// `c03 big`: the indexer's auto-save.  `Indexer::add_with` (index/indexer.rs) writes an index file on its own
+// as soon as it holds `MAX_COUNT` (50 000) blobs, i.e. in the MIDDLE of a command that adds many blobs; what
+// that file lists must already be stored.  The scenario is a backup whose source chunks into more than 50 000
+// tiny blobs, so at least one index file is written while pack writes are still going on.
+//
+//   c03 big <variant>,<seed>,<q|t> <pre-ops> <run-ops>
+//     variant 0: one file, fixed-size chunker with 16-byte chunks, default pack sizes (packs close at 10 000 blobs)
+//     variant 1: the same with small data packs (many packs before the auto-save)
+//     variant 2: many tiny files (one blob each) in directories, default chunker
+
+pub const BIG_VARIANTS: u64 = 3;
+
+fn big_cfg(variant: u64, seed: u64) -> ConfigOptions {
+    let c = ConfigOptions::default().set_compression(if seed % 2 == 0 { 0 } else { 3 });
+    match variant {
+        0 => c.set_chunker(Chunker::FixedSize).set_chunk_size(ByteSize(16)),
+        1 => c.set_chunker(Chunker::FixedSize).set_chunk_size(ByteSize(16)).set_datapack_size(ByteSize(40_000 + (seed % 7) * 9_000)),
+        _ => c,
+    }
+}
+
+/// number of distinct blobs of the big source: a little more than the indexer's auto-save threshold, so that the index
+/// file is written mid-run and some packs follow it
+fn big_blobs(variant: u64, seed: u64) -> u64 {
+    let max_count = rustic_core::verif::indexer::MAX_COUNT as u64;
+    match variant {
+        2 => max_count + 600 + seed % 400,
+        _ => max_count + 2_000 + (seed % 5) * 2_500,
+    }
+}
+
+fn big_source(variant: u64, seed: u64, k: u64) -> MemSource {
+    let n = big_blobs(variant, seed);
+    let chunk = |i: u64| -> [u8; 16] {
+        let mut c = [0u8; 16];
+        c[..8].copy_from_slice(&i.to_le_bytes());
+        c[8..].copy_from_slice(&(seed.wrapping_mul(0x9e37_79b9_7f4a_7c15) ^ 0xb16).to_le_bytes());
+        c
+    };
+    let mut v = vec![];
+    if variant == 2 {
+        for i in 0..n {
+            let d = format!("d{:03}", i / 700);
+            let f = format!("f{i:06}");
+            v.push(SrcEntry::file(&[d.as_bytes(), f.as_bytes()], &chunk(i)));
+        }
+    } else {
+        let mut data = Vec::with_capacity(n as usize * 16);
+        for i in 0..n {
+            data.extend_from_slice(&chunk(i));
+        }
+        v.push(SrcEntry::file(&[b"big"], &data));
+    }
+    // a small part that changes between the pre-state backup (k = 0) and the command (k = 1)
+    // (visible in the metadata: the parent-based change detection relies on it)
+    let mut e = SrcEntry::file(&[b"small"], &Rng::new(seed ^ k).bytes(40));
+    e.mtime_s += 10 * (k as i64 + 1);
+    e.ctime_s = e.mtime_s;
+    v.push(e);
+    MemSource::new(v)
+}
+
+/// the (small) state before the big backup: one snapshot of a small source
+fn big_prestate(variant: u64, seed: u64) -> Result<Scn, String> {
+    let e = |x: Box<rustic_core::RusticError>| format!("oracle-fail:prestate-{}", crate::util::errkind(&x));
+    let (h, _) = RepoHandle::init(MemBackend::new(), None, &big_cfg(variant, seed)).map_err(e)?;
+    let src = MemSource::new(vec![SrcEntry::file(&[b"small"], &Rng::new(seed).bytes(40)), SrcEntry::file(&[b"old"], &Rng::new(seed ^ 5).bytes(100))]);
+    let snap = do_backup(&h, &src).map_err(e)?;
+    h.be.clear_log();
+    Ok(Scn { h, live: vec![(snap, Some(src))], aux: None, extra_key: None })
+}
+
+/// every pack an index file lists (unmarked or marked) exists with the size the index says
+fn index_lists_stored_packs(h: &RepoHandle) -> Result<(), String> {
+    let store = h.be.store();
+    for (_, f) in all_index(h, &store)? {
+        for p in f.packs.iter().chain(f.packs_to_delete.iter()) {
+            match store.get(&(repo::ft_idx(FileType::Pack), *p.id)) {
+                Some(b) if b.len() as u32 == p.pack_size() => {}
+                Some(_) => return Err("index-lists-pack-of-other-size".into()),
+                None => return Err("index-lists-missing-pack".into()),
+            }
+        }
+    }
+    Ok(())
+}
+
+/// state oracles after a crashed / failed big backup: a consistent prefix state, and a simple retry heals it
+fn big_state_ok(variant: u64, seed: u64, h: &RepoHandle, live: &[(SnapshotFile, Option<MemSource>)]) -> Result<(), String> {
+    index_lists_stored_packs(h)?;
+    state_ok("backup", h, live, &BTreeSet::new())?;
+    // the retry: same source, no fault
+    let src = big_source(variant, seed, 1);
+    let snap = do_backup(h, &src).map_err(|e| format!("retry-{}", crate::util::errkind(&e)))?;
+    index_lists_stored_packs(h).map_err(|e| format!("retry-{e}"))?;
+    match check_errors_retry(h, true) {
+        Some(0) => {}
+        Some(_) => return Err("retry-check-errors".into()),
+        None => return Err("retry-check-failed".into()),
+    }
+    let r = h.open().and_then(|r| r.to_indexed()).map_err(|_| "retry-open-failed".to_string())?;
+    let mut got = repo::read_back(&r, &snap).map_err(|_| "retry-snapshot-unreadable".to_string())?;
+    got.retain(|e| e.path != b"src");
+    if got != repo::expected(&src) {
+        return Err("retry-snapshot-differs".into());
+    }
+    Ok(())
+}
+
+/// fault positions around every index file written before the last pack write (= the indexer's auto-saves): the pack
+/// write before it, the index write itself and the operation after it (quick); thorough: two on each side, the first and
+/// the last operation and two random ones.  Returned with a flag: also run with `crash_at` (quick: never; thorough: the
+/// three central positions).
+fn big_ks(log: &[LogOp], thorough: bool, seed: u64) -> Vec<(usize, bool)> {
+    let n = log.len();
+    let last_pack = log.iter().rposition(|o| o.tpe == FileType::Pack && o.write).unwrap_or(0);
+    let mut v: BTreeMap<usize, bool> = BTreeMap::new();
+    let d = if thorough { 2 } else { 1 };
+    for (i, o) in log.iter().enumerate() {
+        if o.tpe == FileType::Index && o.write && i < last_pack {
+            for k in i.saturating_sub(d)..=i + d {
+                let central = thorough && k + 1 >= i && k <= i + 1;
+                let e = v.entry(k).or_insert(false);
+                *e = *e || central;
+            }
+        }
+    }
+    if thorough && !v.is_empty() {
+        _ = v.entry(0).or_insert(false);
+        _ = v.entry(n - 1).or_insert(false);
+        let mut r = Rng::new(seed ^ 0xb16);
+        for _ in 0..2 {
+            _ = v.entry(r.below(n as u64) as usize).or_insert(false);
+        }
+    }
+    v.into_iter().filter(|(k, _)| *k < n).collect()
+}
+
+fn exec_big(variant: u64, seed: u64, thorough: bool) -> String {
+    let scn = match big_prestate(variant, seed) {
+        Ok(s) => s,
+        Err(e) => return e,
+    };
+    let before = scn.h.be.store();
+    let src = big_source(variant, seed, 1);
+    if let Err(e) = do_backup(&scn.h, &src) {
+        return format!("oracle-fail:big:full-run-{}", crate::util::errkind(&e));
+    }
+    let log = scn.h.be.log();
+    let n = log.len();
+    if let Err(e) = index_lists_stored_packs(&scn.h).and_then(|()| state_ok("backup", &scn.h, &scn.live, &BTreeSet::new())) {
+        return format!("oracle-fail:big:final-{e}");
+    }
+    let ks = big_ks(&log, thorough, seed);
+    if ks.is_empty() {
+        return "oracle-fail:big:no-auto-saved-index".into();
+    }
+    for (k, with_crash) in ks {
+        for crash in if with_crash { vec![false, true] } else { vec![false] } {
+            let h = RepoHandle { be: MemBackend::from_store(before.clone()), hot: None, key: scn.h.key.clone() };
+            if crash { h.be.set_crash_at(Some(k)) } else { h.be.set_fail_only(Some(k)) }
+            let res = do_backup(&h, &src);
+            let hit = h.be.log().iter().any(|o| !o.applied);
+            h.be.set_crash_at(None);
+            h.be.set_fail_only(None);
+            if hit && res.is_ok() {
+                return format!("oracle-fail:big:failure-not-reported@{k}/{n}");
+            }
+            if let Err(e) = big_state_ok(variant, seed, &h, &scn.live) {
+                return format!("oracle-fail:big:{}-{e}@{k}/{n}", if crash { "crash" } else { "fail" });
+            }
+        }
+    }
+    "ok".into()
+}
+
+fn parse_big_spec(s: &str) -> Option<(u64, u64, bool)> {
+    let p: Vec<&str> = s.split(',').collect();
+    if p.len() != 3 || !(p[2] == "q" || p[2] == "t") {
+        return None;
+    }
+    let v = p[0].parse::<u64>().ok()?;
+    if v >= BIG_VARIANTS {
+        return None;
+    }
+    Some((v, p[1].parse().ok()?, p[2] == "t"))
+}
+
+pub fn gen_big(variant: u64, seed: u64, thorough: bool) -> String {
+    let spec = format!("{variant},{seed},{}", if thorough { "t" } else { "q" });
+    let fallback = |why: String| format!("c03 big {spec} - X{} -", why.split_whitespace().next().unwrap_or("?"));
+    let scn = match big_prestate(variant, seed) {
+        Ok(s) => s,
+        Err(e) => return fallback(e),
+    };
+    let before = scn.h.be.store();
+    if let Err(e) = do_backup(&scn.h, &big_source(variant, seed, 1)) {
+        return fallback(crate::util::errkind(&e));
+    }
+    let log = scn.h.be.log();
+    let after = scn.h.be.store();
+    match abstract_tokens_classes(&scn.h, &before, &after, &log) {
+        Ok((pre, run)) => {
+            let j = |v: Vec<String>| if v.is_empty() { "-".to_string() } else { v.join(";") };
+            // blob counts of the packs written by the run, under the file numbers of the trace (`P<n>:…`)
+            let counts: BTreeMap<Id, usize> = match all_index(&scn.h, &after) {
+                Ok(ix) => ix.iter().flat_map(|(_, f)| f.packs.iter()).map(|p| (*p.id, p.blobs.len())).collect(),
+                Err(e) => return fallback(e),
+            };
+            let mut cs = vec![];
+            for (o, tok) in log.iter().filter(|o| o.applied).zip(run.iter()) {
+                if o.tpe == FileType::Pack && o.write {
+                    let n = tok[1..].split(':').next().unwrap_or("0");
+                    cs.push(format!("{n}={}", counts.get(&o.id).copied().unwrap_or(0)));
+                }
+            }
+            format!("c03 big {spec} {} {} {}", j(pre), j(run), if cs.is_empty() { "-".into() } else { cs.join(".") })
+        }
+        Err(e) => fallback(e),
+    }
+}
+
 pub fn exec(toks: &[&str]) -> String {
     let toks: Vec<String> = toks.iter().map(|s| (*s).to_string()).collect();
     guarded(move || {
+        if toks.len() == 5 && toks[0] == "big" {
+            return match parse_big_spec(&toks[1]) {
+                Some((v, seed, th)) => exec_big(v, seed, th),
+                None => "bad-op".into(),
+            };
+        }
         if toks.len() != 5 || toks[0] != "mon" || !CMDS.contains(&toks[1].as_str()) {
             return "bad-op".into();
         }
@@ -391,7 +731,7 @@ pub fn gen_one(cmd: &str, seed: u64, thorough: bool) -> String {
         Err(e) => return fallback(e),
     };
     let before = scn.h.be.store();
-    if let Err(e) = run_cmd(cmd, seed, &scn.h, &scn.live) {
+    if let Err(e) = run_cmd(cmd, seed, &scn.h, &scn) {
         return fallback(crate::util::errkind(&e));
     }
     let log = scn.h.be.log();
@@ -403,7 +743,16 @@ pub fn gen_one(cmd: &str, seed: u64, thorough: bool) -> String {
 }
 
 pub fn generate(thorough: bool, rng: &mut Rng, ops: &mut Vec<String>, stats: &mut Stats) {
-    let rounds = if thorough { 8 } else { 2 };
+    // the indexer's auto-save: quick one case (variant 0 or 1), thorough every variant and one more of variant 0 / 1
+    let bigs: Vec<u64> = if thorough { vec![0, 1, 2, rng.below(2)] } else { vec![rng.below(2)] };
+    for variant in bigs {
+        let seed = rng.below(1_000_000);
+        let line = guarded(move || gen_big(variant, seed, thorough));
+        stats.hit(format!("cmd.big{variant}"));
+        stats.add("trace.ops", line.split(' ').nth(4).map_or(0, |r| r.split(';').count() as u64));
+        ops.push(line);
+    }
+    let rounds = if thorough { 14 } else { 3 };
     for _ in 0..rounds {
         for cmd in CMDS {
             let seed = rng.below(1_000_000);
